@@ -79,17 +79,17 @@ def modify_lines(kind, val):
     g = f"{val:.6g}"
     if kind == "solution":
         g = f"{20.0 + val % 20.0:.6g}"
-        return [f" -temp {g}"], r"^-temp\s", rf"^-temp\s+{g}$"
+        return [f" -temp {g}"], r"^-temp\s", (r"^-temp\s+(\S+)$", float(g))
     if kind == "pp":
-        return [" -component Calcite", f"  -moles {g}"], r"^-moles\s", rf"^-moles\s+{g}$"
+        return [" -component Calcite", f"  -moles {g}"], r"^-moles\s", (r"^-moles\s+(\S+)$", float(g))
     if kind == "exchange":
         return [f" -exchange_gammas {int(val) % 2}"], r"^-exchange_gammas\s", rf"^-exchange_gammas\s+{int(val) % 2}$"
     if kind == "surface":
-        return [f" -thickness {g}"], r"^-(thickness|new_def)\s", rf"^-thickness\s+{g}$"
+        return [f" -thickness {g}"], r"^-(thickness|new_def)\s", (r"^-thickness\s+(\S+)$", float(g))
     if kind == "ss":
-        return [" -solid_solution CaSr", "  -component Calcite", f"   -moles {g}"], r"^-moles\s", rf"^-moles\s+{g}$"
+        return [" -solid_solution CaSr", "  -component Calcite", f"   -moles {g}"], r"^-moles\s", (r"^-moles\s+(\S+)$", float(g))
     if kind == "gas":
-        return [f" -volume {g}"], r"^-volume\s", rf"^-volume\s+{g}$"
+        return [f" -volume {g}"], r"^-volume\s", (r"^-volume\s+(\S+)$", float(g))
     if kind == "kinetics":
         return [f" -cvode_steps {int(val) + 1}"], r"^-cvode_steps\s", rf"^-cvode_steps\s+{int(val) + 1}$"
     if kind == "reaction":
